@@ -766,7 +766,7 @@ type e2Goroutine struct {
 	State     string   `json:"state"`
 	Funcs     []string `json:"funcs"`      // frames, innermost first
 	CreatedBy string   `json:"created_by"` // function that started it
-	Refinery  string   `json:"refinery"`   // first frame (or creator) that is refinery code, "" if none
+	Refinery  string   `json:"refinery"`   // outermost frame that is refinery code (the goroutine's entry point), else "created by <refinery func>", "" if neither
 }
 
 func e2AllGoroutines() []e2Goroutine {
@@ -804,6 +804,7 @@ func e2AllGoroutines() []e2Goroutine {
 			}
 			return !strings.HasPrefix(base, "zz_verif_")
 		}
+		outermost, createdBy := "", ""
 		for i := 1; i < len(lines); i++ {
 			l := lines[i]
 			if strings.HasPrefix(l, "\t") {
@@ -822,8 +823,8 @@ func e2AllGoroutines() []e2Goroutine {
 					fn = fn[:sp]
 				}
 				g.CreatedBy = fn
-				if g.Refinery == "" && isRefinery(fn, file) {
-					g.Refinery = "created by " + fn
+				if isRefinery(fn, file) {
+					createdBy = "created by " + fn
 				}
 				continue
 			}
@@ -832,9 +833,13 @@ func e2AllGoroutines() []e2Goroutine {
 				fn = fn[:p]
 			}
 			g.Funcs = append(g.Funcs, fn)
-			if g.Refinery == "" && isRefinery(fn, file) {
-				g.Refinery = fn
+			if isRefinery(fn, file) {
+				outermost = fn // frames come innermost first: keep the last one
 			}
+		}
+		g.Refinery = outermost
+		if g.Refinery == "" {
+			g.Refinery = createdBy
 		}
 		out = append(out, g)
 	}
